@@ -9,7 +9,11 @@ import (
 	"context"
 	"encoding/json"
 	"fmt"
+	"reflect"
+	"runtime"
 	"sort"
+	"strings"
+	"sync"
 
 	"github.com/go-spring/log"
 
@@ -87,8 +91,10 @@ func cmdCaller(f hx.Flags, r *hx.Result) {
 			if p := hx.Catch(func() { file, line = site(ctx, tag, int64(i+1)) }); p != nil && bad == nil {
 				bad = p
 			}
-			if c.Seen[i].Loc == 0 {
+			if c.Seen[i].Loc == -99 {
 				file, line = "", 0
+			} else if s.Skip == 0 {
+				file, line = "<Record>", 0 // Record's own frame: checked against the function's extent below
 			}
 			wants = append(wants, want{file, line})
 			distinct[key+c.Mode+fmt.Sprint(c.Enable)] = true
@@ -111,6 +117,17 @@ func cmdCaller(f hx.Flags, r *hx.Result) {
 				r.Violate("caller-record-missing", desc, "call %d (%v) produced no record", i+1, c.Calls[i])
 				continue
 			}
+			if w.file == "<Record>" {
+				// skip 0 denotes Record's own frame: a line inside the library function Record
+				fn := runtime.FuncForPC(reflect.ValueOf(log.Record).Pointer())
+				rfile, rline := fn.FileLine(fn.Entry())
+				if rc.File != rfile || rc.Line < rline || rc.Line > rline+15 {
+					r.Violate(fmt.Sprintf("wrong-location:%s:skip0", c.Mode), desc,
+						"call %d Record with skip 0 in %s mode: record says %s:%d, the chosen frame is Record itself (%s:%d..)",
+						i+1, c.Mode, rc.File, rc.Line, rfile, rline)
+				}
+				continue
+			}
 			if rc.File != w.file || rc.Line != w.line {
 				kind := "first-call"
 				if c.Seen[i].Hit {
@@ -131,8 +148,57 @@ func cmdCaller(f hx.Flags, r *hx.Result) {
 	}
 	r.NonTrivial(int64(len(distinct)))
 	callerSweep(r, ctx)
+	callerBurst(r, ctx, f.Int("bursts", 1200))
 	log.Destroy()
 	log.VerifReset()
+}
+
+// callerBurst: several goroutines reach one cold call site at the same moment in fast mode (a worker pool
+// starting up); every record must carry the statement's location, whoever resolved the site first.
+func callerBurst(r *hx.Result, ctx context.Context, trials int) {
+	const G = 8
+	site := sites.Table["Info/plain/1"]
+	for t := 0; t < trials && !hx.Stopped(); t++ {
+		log.Destroy()
+		log.VerifReset() // empties the frame cache: the site is cold again
+		sys.ResetAppenders()
+		tag := log.RegisterTag("caller_tag")
+		cfg := sys.Cfg{}
+		cfg.AddRec("ca")
+		cfg.AddLogger("lg", "Logger", "", "caller_tag", []sys.Ref{{Ref: "ca"}}, false, nil)
+		cfg["fastCaller"] = "true"
+		if err := log.Refresh(cfg.Map(nil)); err != nil {
+			r.SetInfra("caller burst refresh: %v", err)
+			return
+		}
+		var wg sync.WaitGroup
+		start := make(chan struct{})
+		var wf string
+		var wl int
+		var mu sync.Mutex
+		for g := 1; g <= G; g++ {
+			wg.Add(1)
+			go func(id int64) {
+				defer wg.Done()
+				<-start
+				f, l := site(ctx, tag, id)
+				mu.Lock()
+				wf, wl = f, l
+				mu.Unlock()
+			}(int64(g))
+		}
+		close(start)
+		wg.Wait()
+		log.Destroy()
+		r.Eval(G)
+		for _, rc := range sys.Appender("ca").Recs() {
+			if rc.File != wf || rc.Line != wl {
+				r.Violate("wrong-location:fast:concurrent-first-use", map[string]any{"goroutines": G, "trial": t},
+					"fast mode, %d goroutines reach a cold call site together: a record says %q:%d, the calling statement is %s:%d", G, rc.File, rc.Line, wf, wl)
+				return
+			}
+		}
+	}
 }
 
 // callerSweep keeps one fast-mode configuration alive and visits every generated call site twice
@@ -153,7 +219,9 @@ func callerSweep(r *hx.Result, ctx context.Context) {
 	}
 	keys := make([]string, 0, len(sites.Table))
 	for k := range sites.Table {
-		keys = append(keys, k)
+		if !strings.HasSuffix(k, "/0") { // skip 0 denotes a frame inside the library, not the site's statement
+			keys = append(keys, k)
+		}
 	}
 	sort.Strings(keys)
 	type want struct {
